@@ -15,6 +15,7 @@ K_list  == << O("new", ""), O("origin", OA), O("origin", OB), O("method", "GET")
 K_one   == << O("new", ""), O("origin", OB), O("header", "authorization") >>  \* single origin, no methods
 K_mix   == << O("new", ""), O("method", "DELETE"), O("wild_origin", ""), O("origin", OA), O("wild_methods", "") >>
 K_wadd  == << O("wildcard", ""), O("origin", OA), O("method", "POST"), O("header", "x-api-key") >>   \* adds after wildcard: ignored
+Cat1 == {K_list}
 Cat2 == {K_list, K_wild}
 Cat3 == {K_list, K_wild, K_new}
 Cat4 == {K_list, K_one, K_mix, K_new}
